@@ -835,6 +835,15 @@ impl<'a> Gen<'a> {
                 let r = self.lit_atom();
                 Some(Cons::Implied(r, Box::new(inner)))
             }
+            "implstate" => {
+                // half-reified constraints whose propagators keep state across backtracking
+                // (time-tables, trailed sums, fixed-term counters): the wrapper has to forward
+                // every notification, backtrack notification and synchronisation
+                let k = *self.rng.pick(&["cumul", "cumul", "cumul", "linne", "linle", "lineq"]);
+                let inner = self.gen_base(k)?;
+                let r = self.lit_atom();
+                Some(Cons::Implied(r, Box::new(inner)))
+            }
             "reif" => {
                 let inner = if self.rng.chance(1, 5) {
                     Cons::Neg(Box::new(self.gen_negatable()))
